@@ -31,6 +31,7 @@ func (s State) clone() State {
 
 // VC is the verification context of one function under contract.
 type VC struct {
+	Options    string // solver options placed at the head of every script of this VC
 	geqMemo    map[[2]string]bool
 	stable     []string // references of ghost objects that no havoc touches (mode A: the parsed request)
 	baseMem    string
